@@ -175,6 +175,16 @@ def cases(tier, seed):
                 for cache in ([], ["--cache"]):
                     extra = G.transform_args(op, mode) + ["--rf-over", "0"] + cache
                     out.append(mk(tree_two(L, o), "two", L, o, "metro", "ssd", extra, tr=[op, mode], repeat=2 if cache else 1))
+    # equal base names in different directories under a $IN transform and pools of several threads: the private
+    # copies handed to the transform program may not get in each other's way (the program waits 0.15 s before it reads)
+    for L in (10, 5000):
+        tree = [{"p": "r/d%d/same.name" % i, "k": "file", "c": (["base", L, 0] if i % 2 == 0 else ["flip", L, 0, L - 1])} for i in range(4)]
+        for mode in ("in", "inout"):
+            for threads in (["-t", "8"], ["-t", "default:4,4"]):
+                extra = G.transform_args("slowkeep", mode) + ["--rf-over", "0"] + threads
+                c = mk(tree, "plain", L, L - 1, "metro", "ssd", extra, tr=["slowkeep", mode], repeat=2)
+                c["meta"]["same_base_names"] = True
+                out.append(c)
     # length-changing transforms on trees with hard links (one hash per file id is shared by all its names)
     for L in (10, 5000):
         for op in ("shrink", "double", "prefix"):
